@@ -447,3 +447,117 @@ def standard_configs(rng, tier, kinds=("pixel", "fourier", "hybrid"), sizes=None
                 opts = dict(nsig=int(rng.choice([15, 15, 12])))
             cfgs.append((kind, N, psf, opts))
     return cfgs
+
+
+# ----------------------------------------------------------------------------
+# independent float64 reference renderer (mathematical definition: exact b_n, pixel integration, spatial convolution)
+# ----------------------------------------------------------------------------
+
+def _sersic_exact(X, Y, xc, yc, flux, r_eff, n, ellip, theta):
+    from scipy.special import gammaincinv, gamma
+    bn = gammaincinv(2 * n, 0.5)
+    q = 1 - ellip
+    tr = theta + np.pi / 2          # position angle from +y towards −x
+    xm = (X - xc) * np.cos(tr) + (Y - yc) * np.sin(tr)
+    xn = -(X - xc) * np.sin(tr) + (Y - yc) * np.cos(tr)
+    z = np.sqrt((xm / r_eff) ** 2 + (xn / (q * r_eff)) ** 2)
+    Ie = flux * bn ** (2 * n) / (2 * np.pi * n * r_eff ** 2 * q * np.exp(bn) * gamma(2 * n))
+    return Ie * np.exp(-bn * (z ** (1.0 / n) - 1))
+
+
+_GL = {}
+
+
+def _gl(k):
+    if k not in _GL:
+        x, w = np.polynomial.legendre.leggauss(k)
+        _GL[k] = (x / 2, w / 2)
+    return _GL[k]
+
+
+def _cell_integral(f, x0, x1, y0, y1, xc, yc, depth):
+    """∫∫ f over the cell; cells containing the cusp (xc, yc) are subdivided recursively"""
+    inside = (x0 <= xc <= x1) and (y0 <= yc <= y1)
+    if inside and depth > 0:
+        tot = 0.0
+        xs = np.linspace(x0, x1, 5)
+        ys = np.linspace(y0, y1, 5)
+        for i in range(4):
+            for j in range(4):
+                tot += _cell_integral(f, xs[i], xs[i + 1], ys[j], ys[j + 1], xc, yc, depth - 1)
+        return tot
+    g, w = _gl(12)
+    X = (x0 + x1) / 2 + g[None, :] * (x1 - x0)
+    Y = (y0 + y1) / 2 + g[:, None] * (y1 - y0)
+    return float((f(X, Y) * (w[None, :] * w[:, None])).sum() * (x1 - x0) * (y1 - y0))
+
+
+def reference_intrinsic(N, comp):
+    """pixel-integrated analytic Sersic component (xc, yc, flux, r_eff, n, ellip, theta), float64"""
+    xc, yc = comp["xc"], comp["yc"]
+    f = lambda X, Y: _sersic_exact(X, Y, xc, yc, comp["flux"], comp["r_eff"], comp["n"], comp["ellip"], comp["theta"])  # noqa: E731
+    g, w = _gl(8)
+    r, c = np.mgrid[:N, :N].astype(float)
+    img = np.zeros((N, N))
+    for gi, wi in zip(g, w):
+        for gj, wj in zip(g, w):
+            img += wi * wj * f(c + gj, r + gi)
+    # refine the pixels around the centre, where the profile is cuspy
+    ci, cj = int(round(yc)), int(round(xc))
+    for i in range(max(ci - 3, 0), min(ci + 4, N)):
+        for j in range(max(cj - 3, 0), min(cj + 4, N)):
+            img[i, j] = _cell_integral(f, j - 0.5, j + 0.5, i - 0.5, i + 0.5, xc, yc, 5)
+    return img
+
+
+def extended_components(ptype, p):
+    """the Sersic components of an extended profile type as parameter dicts"""
+    base = dict(xc=p["xc"], yc=p["yc"], theta=p["theta"])
+    if ptype == "sersic":
+        return [dict(base, flux=p["flux"], r_eff=p["r_eff"], n=p["n"], ellip=p["ellip"])]
+    if ptype in ("exp", "dev"):
+        return [dict(base, flux=p["flux"], r_eff=p["r_eff"], n=1.0 if ptype == "exp" else 4.0, ellip=p["ellip"])]
+    if ptype == "doublesersic":
+        return [dict(base, flux=p["flux"] * p["f_1"], r_eff=p["r_eff_1"], n=p["n_1"], ellip=p["ellip_1"]),
+                dict(base, flux=p["flux"] * (1 - p["f_1"]), r_eff=p["r_eff_2"], n=p["n_2"], ellip=p["ellip_2"])]
+    if ptype == "sersic_exp":
+        return [dict(base, flux=p["flux"] * p["f_1"], r_eff=p["r_eff_1"], n=p["n"], ellip=p["ellip_1"]),
+                dict(base, flux=p["flux"] * (1 - p["f_1"]), r_eff=p["r_eff_2"], n=1.0, ellip=p["ellip_2"])]
+    raise ValueError(ptype)
+
+
+def reference_image(N, psf, ptype, p):
+    """independent reference: Σ components, pixel-integrated, convolved spatially with the stamp centred on its geometric centre"""
+    from scipy.signal import convolve2d
+    intr = sum(reference_intrinsic(N, c) for c in extended_components(ptype, p) if c["flux"] != 0)
+    psf = np.asarray(psf, float)
+    if psf.shape == (1, 1):
+        return intr * psf[0, 0]
+    assert psf.shape[0] % 2 == 1 and psf.shape[1] % 2 == 1, "reference convolution uses odd stamps"
+    return convolve2d(intr, psf, mode="same", boundary="fill")
+
+
+def weighted_moments(img, sigma_w, x0=None, y0=None, iters=12):
+    """Gaussian-weighted centroid and second moments (adaptive centre): returns xc, yc, size² (trace), axis ratio, position angle
+    of the major axis measured from +y towards −x"""
+    N = img.shape[0]
+    yy, xx = np.mgrid[:N, :N].astype(float)
+    tot = img.sum()
+    cx = (img * xx).sum() / tot if x0 is None else x0
+    cy = (img * yy).sum() / tot if y0 is None else y0
+    for _ in range(iters):
+        w = np.exp(-((xx - cx) ** 2 + (yy - cy) ** 2) / (2 * sigma_w ** 2)) * img
+        s = w.sum()
+        cx, cy = (w * xx).sum() / s, (w * yy).sum() / s
+    w = np.exp(-((xx - cx) ** 2 + (yy - cy) ** 2) / (2 * sigma_w ** 2)) * img
+    s = w.sum()
+    mxx = (w * (xx - cx) ** 2).sum() / s
+    myy = (w * (yy - cy) ** 2).sum() / s
+    mxy = (w * (xx - cx) * (yy - cy)).sum() / s
+    tr = mxx + myy
+    det = mxx * myy - mxy ** 2
+    disc = np.sqrt(max((tr / 2) ** 2 - det, 0.0))
+    l1, l2 = tr / 2 + disc, tr / 2 - disc
+    ang_x = 0.5 * np.arctan2(2 * mxy, mxx - myy)          # major axis angle from +x towards +y
+    pa = (ang_x - np.pi / 2) % np.pi                       # from +y towards −x:  u = (−sin θ, cos θ)
+    return dict(xc=cx, yc=cy, size2=tr, q=float(np.sqrt(max(l2, 0) / l1)), pa=float(pa))
